@@ -1,7 +1,7 @@
 SPECIFICATION Spec
 CONSTANTS
   Threads = {1, 2}
-  Funcs = {"f", "g"}
+  Funcs = {"f"}
   MaxAttempts = 2
   ClearOnFail = TRUE
   ClearOnReadFail = TRUE
